@@ -169,7 +169,30 @@ def generic_external(X, ins, key):
 
 
 def dynamic_call(X, ins):
-    raise OutOfSubset('dynamic call in ' + X.fnkey)
+    """call through a function-typed parameter (callback): counted in the ghost fncalls_<param>; the callback is the
+    caller's code - its effects on the heap are not modelled inside the function under verification (assumption)"""
+    cal = ins['callee']
+    if cal['k'] != 'param':
+        raise OutOfSubset('dynamic call in ' + X.fnkey)
+    w = X.w
+    key = ('ghost', 'fncalls_' + cal['name'], I)
+    X.heap.set(key, X.heap.get(key) + 1)
+    for i, a in enumerate(ins['args']):
+        v = X.val(a)
+        if z3.is_expr(v):
+            X.heap.set(('ghost', 'fnarg%d_%s' % (i, cal['name']), v.sort()), v)
+    X.V.notes.append('callback parameter %s of %s: its own effects are not modelled inside this function' % (cal['name'], X.V.shown))
+    tk = ins.get('type')
+    res = []
+    if tk:
+        e = w.prog.types.get(tk)
+        tys = e['elems'] if e is not None and e['kind'] == 'tuple' else ([tk] if tk != '()' else [])
+        for t in tys:
+            v = w.fresh('cbres', w.sort(t))
+            for f in well_typed(X.V, X.heap, v, t):
+                X.hyp(f)
+            res.append(v)
+    setres(X, ins, res)
 
 
 def invoke_call(X, ins):
@@ -410,6 +433,16 @@ def contract_call(X, ins, key, c, argv, iface_sig=None):
                 conds.append(r <= pre.get(ak))
             X.hyp(z3.ForAll([r], z3.Implies(z3.And(*conds) if conds else z3.BoolVal(True), nv[r] == oldv[r]), patterns=[nv[r]]))
             post.set(hk, nv)
+        # function-typed arguments: the callee may call them any number of times
+        from .modset import func_modset
+        for a in argv:
+            if isinstance(a, FuncVal) and a.key and a.key in w.prog.funcs:
+                for hk in sorted(func_modset(V, a.key, [X.fnkey, a.key]), key=str):
+                    nv = V.fresh_heap_const(hk, tag + 'cb')
+                    if hk[0] == 'alloc':
+                        X.hyp(nv >= post.get(hk))
+                    post.set(hk, nv)
+                V.notes.append('callback %s passed to %s: its effects are havocked (called any number of times)' % (a.key, key))
         X.heap = post
         # results
         res = []
